@@ -569,16 +569,20 @@ def writeArgs (w F : Nat) : Mem → Nat → List Int → Mem
   | m, _, [] => m
   | m, i, a :: rest => writeArgs w F (m.writeLE (F - (i + 2) * w) w (wrapI (256 ^ w) a)) (i + 1) rest
 
+/-- does the state section have the words `try_fp` and `defeat`?  (`needs_variable_defeat`: a `try/stop`, or a
+defeat function among the emitted functions) -/
+def needsVD (pr : CProg) : Bool := hasStop pr.body || pr.funs.any (·.dfn)
+
 /-- the state section `gen_lines` emits, before the arguments are stored: `ap fp r0 r1 r2`, the stack, the
 entry frame (room for the arguments, then the return address of `@is_you`, which is `all_is_win`), and in
-programs with a `try/stop` two more words behind the entry frame, `try_fp` (0) and `defeat` (`halt`);
+programs with a `try/stop` or a defeat function two more words behind the entry frame, `try_fp` (0) and `defeat` (`halt`);
 everything else is zero -/
 def initBase (cf : Config) (nargs : Nat) (pr : CProg) : Mem :=
   let w := cf.w
   let stackEnd := 5 * w + cf.stackWords * w + nargs * w + w
-  let m0 : Mem := ((((⟨Array.replicate (stackEnd + (if hasStop pr.body then 2 * w else 0)) 0⟩ : Mem).writeLE 0 w (5 * w)).writeLE w w stackEnd).writeLE
+  let m0 : Mem := ((((⟨Array.replicate (stackEnd + (if needsVD pr then 2 * w else 0)) 0⟩ : Mem).writeLE 0 w (5 * w)).writeLE w w stackEnd).writeLE
       (stackEnd - w) w (progLen cf.checked pr + off_all_is_win))
-  if hasStop pr.body then m0.writeLE (stackEnd + w) w (progLen cf.checked pr + off_halt) else m0
+  if needsVD pr then m0.writeLE (stackEnd + w) w (progLen cf.checked pr + off_halt) else m0
 
 /-- the initial state: the (already parsed) command-line arguments stored in the entry frame -/
 def initMem (cf : Config) (args : List Int) (pr : CProg) : Mem :=
@@ -949,8 +953,8 @@ def isDfn (fns : List FDecl) (g : String) : Bool :=
   | some fd => fd.dfn
   | none => false
 
-/-- variables are declared before use and never shadowed; defeat functions are called only where the effective
-defeat is the word `defeat` (`vd`: the list is inside the body of a `try/stop` or of a defeat function), and only
+/-- variables are declared before use and never shadowed; defeat functions are called only in defeat contexts
+(`vd`: the list is inside the body of a `try` or of a defeat function), and only
 as statements (defeat functions that return a value are outside the modelled sub-language) -/
 def wfS (fns : List FDecl) : Bool → List String → S → Bool
   | _, _, .nil => true
@@ -966,7 +970,7 @@ def wfS (fns : List FDecl) : Bool → List String → S → Bool
   | vd, Γ, .loop c body cont k => boundB Γ c && wfS fns vd Γ body && wfS fns vd Γ cont && wfS fns vd Γ k
   | vd, Γ, .defeat k => wfS fns vd Γ k
   | vd, Γ, .defeatIf c k => boundB Γ c && isD c && wfS fns vd Γ k
-  | vd, Γ, .tryUndo body handler k => wfS fns vd Γ body && wfS fns vd Γ handler && wfS fns vd Γ k
+  | vd, Γ, .tryUndo body handler k => wfS fns true Γ body && wfS fns vd Γ handler && wfS fns vd Γ k
   | _, Γ, .retE e => boundE Γ e
   | vd, Γ, .callS g args k => args.all (boundE Γ) && wfS fns vd Γ k && (vd || !isDfn fns g)
   | vd, Γ, .declCall x g args k => args.all (boundE Γ) && !Γ.contains x && wfS fns vd (x :: Γ) k && !isDfn fns g
@@ -1100,7 +1104,7 @@ def stopOK : S → Bool
 
 /-- the static conditions the theorems assume of a program (all guaranteed by the front end) -/
 def wfProg (pr : CProg) : Bool :=
-  pr.params.Nodup && wfS pr.funs false pr.params pr.body && youLevel (hasStop pr.body) pr.funs pr.body && noFall pr.body && escFree false pr.body &&
+  pr.params.Nodup && wfS pr.funs false pr.params pr.body && youLevel (needsVD pr) pr.funs pr.body && noFall pr.body && escFree false pr.body &&
   stopOK pr.body && callsOK pr.funs pr.body &&
   (pr.funs.map (·.name)).Nodup &&
   pr.funs.all (fun fd => fd.params.Nodup && wfS pr.funs fd.dfn fd.params fd.body && (if fd.dfn then noTry fd.body else plain pr.funs fd.body) && callsOK pr.funs fd.body)
